@@ -40,6 +40,9 @@ var Runners = map[string]func(tier string) int{
 	"C04": func(t string) int { return RunUnpackSafety("C04", t) },
 	"C15": RunC15,
 	"C03": RunC03,
+	"C06": RunC06,
+	"C07": RunC07,
+	"C11": RunC11,
 	"C19": RunC19,
 	"C02": func(t string) int { return RunPackTrees("C02", t) },
 	"C20": func(t string) int { return RunPackTrees("C20", t) },
